@@ -62,11 +62,14 @@ type RefClient struct {
 	Conn int
 	Ver  int
 
-	Cache     map[string]*RCRes
-	Direct    map[string]int
-	Uncertain map[string]bool // direct count not derivable from the frames
-	pool      map[string]*RCRes
-	poolKeep  map[string]*RCRes
+	Cache  map[string]*RCRes
+	Direct map[string]int
+	// Extra[rid] is the number of direct subscriptions the gateway may hold in
+	// addition to Direct[rid] (the frames do not tell: a resource response
+	// whose root is an error entry).
+	Extra    map[string]int
+	pool     map[string]*RCRes
+	poolKeep map[string]*RCRes
 
 	sent      map[uint64]*SentReq
 	Responses map[uint64]int
@@ -77,6 +80,11 @@ type RefClient struct {
 	HandT map[string]int64
 	// DropT is the clock of the frame after which the client stopped holding rid.
 	DropT map[string]int64
+	// Held lists the intervals during which the client held each rid.
+	Held map[string][]HeldInterval
+	// EverTentative marks rids that were at some time kept only by an
+	// unanswered subscribe or an uncertain direct subscription.
+	EverTentative map[string]bool
 	// DropPending marks rids the client dropped while one of its requests was
 	// still unanswered (the gateway may count that request as a subscription).
 	DropPending    map[string]bool
@@ -97,10 +105,10 @@ type RefClient struct {
 func NewRefClient(conn, ver int) *RefClient {
 	return &RefClient{
 		Conn: conn, Ver: ver,
-		Cache: map[string]*RCRes{}, Direct: map[string]int{}, Uncertain: map[string]bool{},
+		Cache: map[string]*RCRes{}, Direct: map[string]int{}, Extra: map[string]int{}, EverTentative: map[string]bool{},
 		pool: map[string]*RCRes{}, sent: map[uint64]*SentReq{}, Responses: map[uint64]int{},
 		RespFrame: map[uint64]*Frame{},
-		Delivered: map[string][]DelivEv{}, HandT: map[string]int64{}, DropT: map[string]int64{}, DropPending: map[string]bool{},
+		Delivered: map[string][]DelivEv{}, HandT: map[string]int64{}, DropT: map[string]int64{}, Held: map[string][]HeldInterval{}, DropPending: map[string]bool{},
 	}
 }
 
@@ -185,6 +193,7 @@ func (rc *RefClient) ingest(rs *resourceSet, t int64) (rids []string) {
 		res.FromT = t
 		rc.Cache[rid] = res
 		rc.HandT[rid] = t
+		rc.openInterval(rid, t, res)
 		delete(rc.DropPending, rid)
 	}
 	for rid, raw := range rs.Models {
@@ -234,6 +243,7 @@ func (rc *RefClient) gc(t int64, fromGet []string) {
 					if p, ok := rc.pool[ref]; ok {
 						rc.Cache[ref] = p
 						rc.HandT[ref] = t
+						rc.openInterval(ref, t, p)
 					} else {
 						rc.viol("C02", t, ref, "dangling", "resource %s holds a reference to %s which the client has neither data nor error for", rid, ref)
 						continue
@@ -245,15 +255,14 @@ func (rc *RefClient) gc(t int64, fromGet []string) {
 		}
 	}
 	for rid, n := range rc.Direct {
-		if n > 0 || rc.Uncertain[rid] {
+		if n > 0 {
 			if _, ok := rc.Cache[rid]; !ok {
 				if p, ok := rc.pool[rid]; ok {
 					rc.Cache[rid] = p
 					rc.HandT[rid] = t
-				} else if n > 0 {
-					rc.viol("C02", t, rid, "rootMissing", "directly subscribed resource %s has neither data nor error", rid)
-					continue
+					rc.openInterval(rid, t, p)
 				} else {
+					rc.viol("C02", t, rid, "rootMissing", "directly subscribed resource %s has neither data nor error", rid)
 					continue
 				}
 			}
@@ -283,10 +292,19 @@ func (rc *RefClient) gc(t int64, fromGet []string) {
 			}
 		}
 	}
+	for rid, x := range rc.Extra {
+		if x > 0 && !reach[rid] {
+			if _, held := rc.Cache[rid]; held {
+				reach[rid] = true
+				stack = append(stack, rid)
+			}
+		}
+	}
 	visit()
 	for rid := range reach {
 		if !confirmed[rid] {
 			rc.Cache[rid].Tentative = true
+			rc.EverTentative[rid] = true
 		}
 	}
 	newPool := map[string]*RCRes{}
@@ -301,6 +319,7 @@ func (rc *RefClient) gc(t int64, fromGet []string) {
 			}
 			delete(rc.Cache, rid)
 			rc.DropT[rid] = t
+			rc.closeInterval(rid, t)
 			rc.DropPending[rid] = rc.anyPending(t)
 		}
 	}
@@ -467,20 +486,37 @@ func unsubCount(req *SentReq) (count int, bad bool) {
 
 func (rc *RefClient) noteUnsub(req *SentReq, rid string, ok bool, code string) {
 	count, bad := unsubCount(req)
-	certain := !rc.Uncertain[rid]
+	certain := rc.Extra[rid] == 0
 	if rc.Overlap != nil && rc.Overlap(rid, req.ID) {
 		certain = false
 	}
 	rc.Unsubs = append(rc.Unsubs, UnsubCheck{RID: rid, Count: count, BadParams: bad, Before: rc.Direct[rid], Certain: certain, OK: ok, Code: code})
 	if ok {
-		rc.Direct[rid] -= count
-		if rc.Direct[rid] < 0 {
+		// the gateway held at least count: take them from the certain part
+		// first, the rest from the uncertain part
+		d := rc.Direct[rid]
+		if count <= d {
+			rc.Direct[rid] = d - count
+		} else {
+			rest := count - d
 			rc.Direct[rid] = 0
+			if rc.Extra[rid] >= rest {
+				rc.Extra[rid] -= rest
+			} else {
+				rc.Extra[rid] = 0
+			}
 		}
-	} else if code == "system.noSubscription" && count == 1 && !bad && rc.Uncertain[rid] {
-		// A failing unsubscribe of one settles an uncertain count at zero.
-		rc.Direct[rid] = 0
-		rc.Uncertain[rid] = false
+		// a success proves the uncertain part existed up to count-d; what is
+		// left of it stays uncertain
+	} else if code == "system.noSubscription" && !bad {
+		// the gateway holds fewer than count
+		if rc.Direct[rid]+rc.Extra[rid] >= count {
+			x := count - 1 - rc.Direct[rid]
+			if x < 0 {
+				x = 0
+			}
+			rc.Extra[rid] = x
+		}
 	}
 }
 
@@ -507,12 +543,7 @@ func (rc *RefClient) processCallResult(f *Frame, action string) {
 	if _, isErr := rs.Errors[rid]; isErr {
 		// The frame does not tell whether the gateway kept a direct
 		// subscription (it does for a failed get, not for denied access).
-		if rc.Direct[rid] == 0 {
-			rc.Uncertain[rid] = true
-		} else {
-			rc.Direct[rid]++
-			rc.Uncertain[rid] = true
-		}
+		rc.Extra[rid]++
 		return
 	}
 	rc.Direct[rid]++
@@ -532,7 +563,7 @@ func (rc *RefClient) processEvent(f *Frame) {
 		rc.viol("C02", f.T, rid, sig, "event %s for a resource the client does not hold: %s", f.Event, f.Raw)
 		if ev == "unsubscribe" {
 			rc.Direct[rid] = 0
-			rc.Uncertain[rid] = false
+			rc.Extra[rid] = 0
 		}
 		rc.gc(f.T, nil)
 		return
@@ -620,11 +651,11 @@ func (rc *RefClient) processEvent(f *Frame) {
 		if err := json.Unmarshal(f.Data, &d); err != nil || d.Reason == nil || d.Reason.Code == nil {
 			rc.viol("C06", f.T, rid, "unsubNoReason", "unsubscribe event without reason: %s", f.Raw)
 		}
-		if rc.Direct[rid] == 0 && !rc.Uncertain[rid] {
+		if rc.Direct[rid] == 0 && rc.Extra[rid] == 0 {
 			rc.viol("C08", f.T, rid, "unsubEventNoDirect", "unsubscribe event for %s although the client has no direct subscription", rid)
 		}
 		rc.Direct[rid] = 0
-		rc.Uncertain[rid] = false
+		rc.Extra[rid] = 0
 	}
 	rc.gc(f.T, nil)
 }
@@ -678,4 +709,32 @@ func trunc200(b []byte) string {
 		return string(b[:200]) + "..."
 	}
 	return string(b)
+}
+
+// HeldInterval is a period during which the client held a resource.
+type HeldInterval struct {
+	From  int64 // clock of the frame that handed the resource over
+	To    int64 // clock of the frame after which it was dropped (0 = still held)
+	Stamp interface{}
+	IsErr bool // the client held an error placeholder, not data
+}
+
+func (rc *RefClient) openInterval(rid string, t int64, res *RCRes) {
+	iv := HeldInterval{From: t, IsErr: res != nil && res.Kind == RError}
+	if res != nil && res.Kind == RModel {
+		iv.Stamp = res.M["_s"]
+	}
+	l := rc.Held[rid]
+	if n := len(l); n > 0 && l[n-1].To == 0 {
+		// re-delivery while held (replacement of tentative/deleted data)
+		l[n-1].To = t
+	}
+	rc.Held[rid] = append(l, iv)
+}
+
+func (rc *RefClient) closeInterval(rid string, t int64) {
+	l := rc.Held[rid]
+	if n := len(l); n > 0 && l[n-1].To == 0 {
+		l[n-1].To = t
+	}
 }
